@@ -305,6 +305,10 @@ impl Kernel {
         *st.counters.entry(name).or_insert(0) += n;
     }
 
+    pub fn faults_fired_count(&self) -> usize {
+        self.lock().faults_fired.len()
+    }
+
     pub fn abort_reason(&self) -> Option<Abort> {
         self.lock().abort.clone()
     }
